@@ -82,7 +82,7 @@ SPEC = Spec(
         "storage is outside it (client never fails, queue starts empty, sizes >= 0, no Offer after Shutdown) - C01 owns the storage side",
     ],
     assumptions=[
-        "every handed-over request is completed (Done.OnDone) EXACTLY at most once - the model's `complete` needs the id in flight. In the "
+        "every handed-over request is completed (Done.OnDone) at most once - the model's `complete` needs the id in flight. In the "
         "code a second OnDone is not harmless: with wait_for_result it sends on the full capacity-1 blockingDone.ch WHILE HOLDING mu and "
         "blocks the whole queue; without it it double-Puts the pooled object. The batcher's refCountDone/multiDone (C04) are what guarantees it",
         "the release clause is proved as worded for states at rest (C02_release_on_space_full_holds: whoever is still blocked does not "
@@ -96,7 +96,7 @@ SPEC = Spec(
         "max(capacity, restored size), size <= sum(in flight) whenever nothing is queued, 0 when all finished - on the real code the "
         "reported size exceeds the configured capacity right after such a restart (678 of 1015 generated restarts)",
         "C02_pinned_cond_deadlock is historical (about the cond.go that was in the tree before the fix); it is not a statement about the checked tree",
-        "0 <= capacity; every handed-over request is completed (OnDone) at most once; each producer goroutine issues one Offer per id",
+        "0 <= capacity; each producer goroutine issues one Offer per id",
         "liveness is stated as stuck-freedom + no-lost-wake-up at quiescence; fairness of the Go scheduler and of sync.Mutex is assumed, not modelled",
         "the run-to-quiescence harnesses fire internal steps eagerly; schedules in which a context ends and a signal arrives before the "
         "waiter runs are exercised at cond level only through the lock hand-over order",
